@@ -241,6 +241,16 @@ def first_decodes(ctx, shard):
         if not odd:
             continue
         odd.sort(key=lambda o: o[3] != 0)  # (stable) the ones that say zero first: they can teach the decoder nothing
+        # what the class *builds* from given values is taken before anything was decoded, and again at the end
+        built = []
+        if f.builder:
+            for _rep in range(6):
+                v = f.gen(rng)
+                try:
+                    inp = f.lib_input(v)
+                    built.append((inp, bytes(f.lib_build(D.strip_private(inp)))))
+                except Exception:  # noqa: BLE001
+                    pass
         before = [outcome(f, x, v) for x, v, _b, _val in odd]
         for _rep in range(12):
             v = f.gen(rng)
@@ -256,6 +266,16 @@ def first_decodes(ctx, shard):
             except Exception:  # noqa: BLE001
                 pass
             after.append(outcome(f, x, v))
+        for inp, b1 in built:
+            try:
+                b2 = bytes(f.lib_build(D.strip_private(inp)))
+            except Exception as e:  # noqa: BLE001
+                b2 = b"raises " + type(e).__name__.encode()
+            ctx.count("builds_repeated_after_decodes")
+            if b1 != b2:
+                ctx.fail("C09:build.depends_on_earlier_decodes.%s" % name, "%s: the same values were built into %s... before anything had been decoded in the process and into %s... after responses (odd and well-formed ones) had been decoded"
+                         % (name, b1[:32].hex(), b2[:32].hex()), {"format": name})
+                break
         ctx.case(("first-decodes", name, len(odd)), True)
         ctx.count("odd_responses_decoded_before_and_after_well_formed_ones", len(odd))
         for (x, _v, _b0, _val), r1, r2 in zip(odd, before, after):
